@@ -71,6 +71,7 @@ fn base_case(msgs: Vec<(Value, u64)>, max_msg_len: usize, stream_len: usize) -> 
         snd_cap: None,
         stream: None,
         recv_retries: 0,
+        recv_after_terminal: 0,
         send_after_error: false,
         max_calls: 4 * stream_len + 64 * 16 + 256,
         capacity: 64,
@@ -543,6 +544,8 @@ pub fn run(ctx: &Ctx, rep: &mut Report) {
                 b.case.buf_cap = Some(*rng.pick(&[m, m + 1, m + d.align(), 3 * m / 2 + 1, 3 * m]));
             }
             b.case.max_recvs = s.len() + 8;
+            // recv is called again after its first terminal outcome: every call must return (no panic, no spinning)
+            b.case.recv_after_terminal = (mix(idx ^ 0x7e41) % 3) as usize;
             b.case.stream = Some(s);
             b.case.msgs.clear();
         }
@@ -748,6 +751,12 @@ pub fn run(ctx: &Ctx, rep: &mut Report) {
         }
 
         // ---- C10
+        if prop == "C10" && case.recv_after_terminal > 0 {
+            let term = t.recvs.iter().position(|e| !matches!(e, RecvEvent::Msg { .. }));
+            if let Some(k) = term {
+                rep.add("recv-calls-after-terminal-outcome", (t.recvs.len() - k - 1) as u64);
+            }
+        }
         if prop == "C10" {
             let stream = case.stream.as_ref().unwrap();
             let cap = case.buf_cap.unwrap_or(2 * case.max_msg_len.max(d.min_size()));
